@@ -7,7 +7,7 @@ usage: sweep_par.py [-j N] [--all-props] [seed-id ...]       (default: all seeds
 import json, os, subprocess, sys, time, shutil
 from concurrent.futures import ThreadPoolExecutor
 V = os.path.dirname(os.path.dirname(os.path.abspath(__file__)))
-EXTRA = {'C13-1': ['C12'], 'C13-2': ['C03'], 'C15-2': ['C20'], 'C14-2': ['C17'], 'C08-2': ['C17'], 'C16-2': ['C12'], 'C19-1': ['C05'], 'C19-2': ['C03', 'C05'],
+EXTRA = {'C04-4': ['C05'], 'C13-1': ['C12'], 'C13-2': ['C03'], 'C15-2': ['C20'], 'C14-2': ['C17'], 'C08-2': ['C17'], 'C16-2': ['C12'], 'C19-1': ['C05'], 'C19-2': ['C03', 'C05'],
          'C17-2': ['C01'], 'C12-2': ['C13']}
 args = sys.argv[1:]
 J = 3
